@@ -6,6 +6,18 @@ import subprocess
 
 VERIF = os.path.dirname(os.path.dirname(os.path.abspath(__file__)))
 
+_DB_NOTE = ("histories are sampled (seeded), not enumerated; databases of <= 10-12 elements, 4 alias names, 3 keys; "
+            "the database is observed only through its public query API; TLC decides every event against DbModel")
+_DB_TECH = "TLA+ trace validation (TLC) of recorded query histories against the DbModel specification"
+
+
+def _db(text, design, mc=False):
+    return dict(level="model_checking",
+                text=text + (" DbModel itself is model-checked exhaustively for small constants (MCDb)." if mc else ""),
+                design=design, note=_DB_NOTE,
+                technique=_DB_TECH + (" + TLC model checking of the bounded model" if mc else ""), engine="vdb")
+
+
 CHECKS = {
     "C01": dict(
         level="fault_enumeration",
@@ -21,14 +33,53 @@ CHECKS = {
              "(completeness of the hook is cross-checked by comparing the model's file image with the real file).",
         technique="TLA+ model checking (TLC) + trace validation + crash-point enumeration against the real recovery",
         engine="vstorage"),
+    "C05": _db("Histories interleaved with reopen / optimize_storage / shrink_to_fit / backup+open-backup / copy / rename / "
+               "reopen-with-the-other-file-variant on Db, DbFile and DbMemory; every maintenance step must stutter on the "
+               "DbModel state and the full canonical dump (ids, endpoints, ordered properties, aliases, indexes with counts, "
+               "adjacency order of every node, elements order) taken after it must equal the model state.", "3.3, 4 C05"),
+    "C06": _db("Every query of a generated history is executed in lock-step on DbMemory, DbFile, Db and DbAny (memory, file, "
+               "mapped); TLC requires every variant's ok/result to equal the primary's and the primary's to conform to "
+               "DbModel; the dumps of all variants must have equal digests after every step.", "3.3, 4 C06"),
+    "C08": _db("Node/edge insert (single, pairwise, each), removal by id and alias with cascade, id reuse, self-loops, "
+               "parallel edges, bad endpoints: each query's success/failure, returned ids (fresh, signed) and the full dump "
+               "afterwards (endpoints, per-node in/out adjacency, node count, edge counts) must be what DbModel allows.",
+               "3.3, 4 C08", mc=True),
+    "C09": _db("insert values / insert-or-update nodes and edges / remove values / element removal: the ordered key-value "
+               "map of every element after every step, select values (all, by keys, missing key error), select keys and "
+               "key counts must equal DbModel.", "3.3, 4 C09", mc=True),
+    "C10": _db("alias insert / re-alias / steal / edge ids / empty alias / alias removal / node removal: the alias mapping "
+               "after every step, alias resolution of ids, select aliases and all aliases must equal DbModel's bijection; "
+               "the named bad inputs must fail without effect.", "3.3, 4 C10", mc=True),
+    "C11": _db("index create/remove at arbitrary points, value inserts/replacements/removals on indexed and non-indexed keys, "
+               "element removal with cascade, failing transactions: every index search and the index listing are compared "
+               "with the operators IndexIds / IndexCount DERIVED from the model state.", "3.3, 4 C11"),
+    "C12": _db("values of all nine types (extreme integers, all float classes incl. NaN payloads and signed zeros, strings "
+               "and byte arrays of length 0..40 around the inline limit, multi-byte UTF-8, vectors) as keys and as values on "
+               "DbMemory, DbFile and Db in lock-step incl. after reopen/backup; values are carried as bit-exact tokens and "
+               "TLC demands token equality through DbModel's key-value semantics.", "3.3, 4 C12"),
+    "C13": _db("transaction_mut closures of 1-4 queries that commit, abort on their own, or contain a failing query, and "
+               "single queries failing after partial work: TLC requires the dump after a rollback to equal the state before "
+               "it up to the order of properties/connections (SameUpToOrder).", "3.3, 3.5, 4 C13"),
+    "C18": _db("elements searches after histories with removals and id reuse: TLC requires the result to contain every live "
+               "element exactly once in increasing id magnitude (InSlotOrder).", "3.4, 4 C18"),
 }
+
+ENGINES = [
+    {"name": "vstorage", "path": "harness/vstorage", "serves_properties": ["C01"],
+     "kind_free_text": "Rust driver over the real storage layer with the fs hook; TLC for WalStorage/WalTrace"},
+    {"name": "vdb", "path": "harness/vdb",
+     "serves_properties": ["C05", "C06", "C08", "C09", "C10", "C11", "C12", "C13", "C18"],
+     "kind_free_text": "Rust driver recording query histories from the real database (all storage variants); "
+                       "TLC for DbModel/DbTrace/MCDb"},
+]
 
 NOT_APPLICABLE = [
     {"property_id": "C07", "reason": "robustness/memory-safety over arbitrary file bytes (panic, abort, allocation size): no state machine for a TLA+ specification to constrain, TLC cannot observe panics or allocations"},
     {"property_id": "C21", "reason": "decode robustness of pure functions on arbitrary bytes: nothing for a TLA+ specification to decide"},
 ]
 
-PENDING_REASON = "not built yet in this round: the specification and harness for it are planned in DESIGN.md section 7 and will be registered when they run"
+PENDING_REASON = ("not built yet in this round: the specification and harness for it are planned in DESIGN.md "
+                  "section 7 and will be registered when they run")
 
 
 def main():
@@ -67,14 +118,11 @@ def main():
             "source_commits": hook_commits,
             "add_only": True,
         },
-        "engines": [
-            {"name": "vstorage", "path": "harness/vstorage", "serves_properties": ["C01"],
-             "kind_free_text": "Rust driver over the real storage layer with the fs hook; TLC for WalStorage/WalTrace"},
-        ],
+        "engines": ENGINES,
         "checks": checks,
         "not_applicable": sorted(na, key=lambda x: x["property_id"]),
         "notes": "Every check is `bin/check <ID> --tier quick|thorough`; exit 0 held / 1 VIOLATION / 2 tool error. "
-                 "Specifications are in spec/, drivers in harness/, per-property drivers in checks/.",
+                 "Specifications are in spec/, drivers in harness/, per-property drivers in checks/ and lib/.",
     }
     with open(os.path.join(VERIF, "MANIFEST.json"), "w") as f:
         json.dump(man, f, indent=1)
